@@ -39,11 +39,13 @@ struct SharedMutexImpl {
 
   [[nodiscard]] bool AwaitLock(BaseCore& curr) noexcept {
     curr.next = nullptr;
-    std::lock_guard lock{_lock};
+    std::unique_lock lock{_lock};
     auto s = _state.fetch_add(kWriter, std::memory_order_acq_rel);
     if (s / kWriter == 0) {
       std::uint32_t r = s % kWriter;
       _writers_first = &curr;
+      // unlock before publishing: the last active reader may run curr at once, it may finish and the mutex may be gone
+      lock.unlock();
       return r != 0 && _readers_wait.fetch_add(r, std::memory_order_acq_rel) != -r;
     }
     _writers_tail->next = &curr;
